@@ -65,6 +65,7 @@ def _setup(cfg):
         return orig_min(self, energy, *a, **kw)
     ift.NewtonCG.__call__ = counting_call
     n_samples = int(cfg.get("n_samples", 1))
+    ns_list = cfg.get("ns_list")      # per-iteration n_samples (0 = MAP iteration without sampling controller)
 
     def drive(odir, resume, copy_to=None):
         # a fresh process: module-level RNG state as after import, then the user's seed
@@ -78,8 +79,11 @@ def _setup(cfg):
             def cb(sl, iglobal):  # reference run only: keep every iteration's directory content (outside odir)
                 shutil.copytree(odir, os.path.join(copy_to, str(iglobal)))
             kw["inspect_callback"] = cb
+        ns_arg, ic_arg = n_samples, (ic if n_samples else None)
+        if ns_list:
+            ns_arg, ic_arg = (lambda i: ns_list[i]), (lambda i: ic if ns_list[i] else None)
         sl, mean = ift.optimize_kl(
-            lh, int(cfg["n"]), n_samples, mini, ic if n_samples else None, nonlinear_sampling_minimizer=nl,
+            lh, int(cfg["n"]), ns_arg, mini, ic_arg, nonlinear_sampling_minimizer=nl,
             export_operator_outputs={"sig": sig} if cfg.get("export") else {}, output_directory=odir,
             save_strategy=cfg.get("strategy", "latest"), resume=bool(resume), return_final_position=True,
             plot_energy_history=bool(cfg.get("plots")), plot_minisanity_history=bool(cfg.get("plots")), **kw)
@@ -535,7 +539,7 @@ def _corpus(ctx):
 def run(ctx):
     import random
     import time
-    jobs = [("corpus", None)] + [("cfg", c) for c in _configs(ctx)] + [("map", "latest"), ("map", "all")] + ([("opaque", None)] if not ctx.quick else [])
+    jobs = [("corpus", None)] + [("cfg", c) for c in _configs(ctx)] + [("map", "latest"), ("map", "all"), ("map", "latest-mixed")] + ([("opaque", None)] if not ctx.quick else [])
     rngs = [random.Random(ctx.rng.randrange(10 ** 9)) for _ in jobs]
     errs = []
 
@@ -558,7 +562,7 @@ def run(ctx):
             ctx.extra.setdefault("phase_s", {})[kind + ("" if cfg is None else ":" + (cfg if isinstance(cfg, str) else cfg["strategy"] + str(cfg["seed"])))] = \
                 round(time.time() - t0, 1)
     # the configurations are independent: one thread each (they spend their time waiting for worker processes)
-    width = 5 if ctx.quick else 3
+    width = 6 if ctx.quick else 3
     pending = list(zip(jobs, rngs))
     while pending:
         batch, pending = pending[:width], pending[width:]
@@ -771,11 +775,13 @@ def _run_opaque(ctx, kind="opaque", which=None):
         cfgs = (dict(n=2, seed=seed, n_samples=1, strategy="all", r0=False, plots=True, export=True),)
     else:
         cfgs = (dict(n=3, seed=seed, n_samples=0, strategy="latest", r0=False),
-                dict(n=3, seed=seed + 1, n_samples=0, strategy="all", r0=ctx.rng.random() < 0.5))
-        cfgs = tuple(c for c in cfgs if which in (None, c["strategy"]))
+                dict(n=3, seed=seed + 1, n_samples=0, strategy="all", r0=ctx.rng.random() < 0.5),
+                # VI iteration, MAP iteration, VI iteration under one base name: the mean file of the first must not survive
+                dict(n=3, seed=seed + 2, n_samples=1, ns_list=[1, 0, 1], strategy="latest", r0=False, mixed=True))
+        cfgs = tuple(c for c in cfgs if which in (None, c["strategy"] + ("-mixed" if c.get("mixed") else "")))
     for cfg in cfgs:
         try:
-            o0 = _run_session(f"{kind}{cfg['strategy']}{seed}", cfg, [])
+            o0 = _run_session(f"{kind}{cfg['strategy']}{cfg['seed']}", cfg, [])
             ref = o0["ref"]
             if ref["status"] != "done":
                 ctx.counterexample(dict(op="ops", cfg=cfg), f"the uninterrupted run raised {ref['exc']}",
@@ -796,7 +802,7 @@ def _run_opaque(ctx, kind="opaque", which=None):
         allsc = {k: v for o in outs for k, v in o["scen"].items()}
         for sid, sc in allsc.items():
             ctx.case(dict(cfg=cfg, kills=sc["kills"]))
-            ctx.stat(f"{kind}-config:{cfg['strategy']}:kill")
+            ctx.stat(f"{kind}-config:{cfg['strategy']}{'-mixed' if cfg.get('mixed') else ''}:kill")
         picked = _real_crosscheck(ctx, cfg, allsc, ref) if kind == "map" else set()
         _report_failures(ctx, cfg, allsc, ref, picked)
 
